@@ -642,6 +642,10 @@ pub fn generate(prop: &str, seed: u64) -> RunSpec {
         if let Action::EmmyrcWrite { diagnostic_interval, .. } = &action {
             interval = diagnostic_interval.unwrap_or(500);
         }
+        let requested_id = match &action {
+            Action::Request { id, .. } => Some(*id),
+            _ => None,
+        };
         let renamed_to = match &action {
             Action::RenameFile { to, .. } => Some(*to),
             _ => None,
@@ -650,6 +654,16 @@ pub fn generate(prop: &str, seed: u64) -> RunSpec {
         let is_emmyrc = matches!(action, Action::EmmyrcWrite { .. });
         let gap = gen_gap(&mut r, &p, interval);
         script.push(Step { gap, action });
+        // A cancellation aimed at the handler of the request just sent: the moment it waits for,
+        // acquires or releases the analysis read lock (cancellation racing with completion).
+        if let (Some(id), true) = (requested_id, p.w_cancel > 0) {
+            if r.chance(1, 6) {
+                script.push(Step {
+                    gap: Gap::Until { what: *r.pick(&[9, 11, 12, 12]), max_ms: *r.pick(&[50, 700]), hold: *r.pick(&[0, 1, 2]) },
+                    action: Action::Cancel { id },
+                });
+            }
+        }
         // The editor opens the renamed file right away (the rename handler is a spawned task that
         // still has to read the new path from disk).
         if let Some(to) = renamed_to {
